@@ -16,7 +16,7 @@ EXPLAIN = "c02_explain"
 CASES_PER_FILE = 120
 CASE_FILE_BYTES = 150000
 CASE_TIMEOUT = 20
-TIERS = {"quick": {"n": 1800}, "thorough": {"n": 40000}}
+TIERS = {"quick": {"n": 1200}, "thorough": {"n": 40000}}
 RULE = ("histories of 1-50 (thorough: up to 120) public dict-API calls (item get/set/del, get, setdefault, update "
         "with dict/mapping/pairs/generator + kwargs, |=, pop, popitem, clear, copy, in, len, iteration, items, "
         "==/!= against dicts and caches) on an LRI or LRU with max_size 1-4 (sometimes 5-8, thorough also 128), 3-7 "
@@ -121,6 +121,7 @@ def gen_case(rng, tier):
     style = rng.choice(["mixed", "mixed", "lookup-heavy", "insert-heavy", "delete-heavy"])
     ops = []
     ncaches = 1
+    recent = {0: [k for k, _ in init]}
     while len(ops) < nops:
         name = rng.choices(names, weights)[0]
         if style == "lookup-heavy" and rng.random() < 0.4:
@@ -132,8 +133,15 @@ def gen_case(rng, tier):
         i = min(ncaches - 1, int(rng.expovariate(1.2))) if rng.random() < 0.7 else rng.randrange(ncaches)
         i = ncaches - 1 - i if rng.random() < 0.5 else i
         k = rng.choice(keys)
+        # bias (no judgement involved): half of the time pick among the keys most recently assigned to this
+        # cache, which are likely to be present, so that del/pop/lookups succeed more often
+        rec = recent.setdefault(i, [])
+        if rec and rng.random() < 0.5:
+            k = rng.choice(rec[-mx:])
         v = rng.randrange(nvals)
         op = {"op": name, "i": i}
+        if name in ("set", "setdefault"):
+            rec.append(k)
         if name == "set":
             op.update(k=k, v=v)
         elif name in ("getitem", "in", "del"):
@@ -158,6 +166,7 @@ def gen_case(rng, tier):
         elif name == "copy":
             if ncaches >= 3 or big:
                 continue
+            recent[ncaches] = list(rec)
             ncaches += 1
             ops.append(op)
             ops.append({"op": "len", "i": i})      # the source right after copy(): counters/contents unchanged
